@@ -424,6 +424,14 @@ def jobs_C06(tier, seed):
                 s = scn(copy.deepcopy(tr), cfg(max_request_concurrency=2), seed=seed, inject=inj)
                 jobs.append(job(f'{inj[0]["kind"]} {name} pre={pre}', s, BD(tier)['CANCEL'], want,
                                 monitor_fs=True, max_execs=400000))
+    # two file downloads on one manager, all cancelled / one failing while shutdown() waits
+    trs = [T_dl('path', 'o5'), T_dl('path', 'o6', preexisting='OLD')]
+    s = scn(copy.deepcopy(trs), cfg(max_request_concurrency=2, max_submission_concurrency=2), seed=seed,
+            inject=[{'kind': 'shutdown_cancel', 'msg': 'x'}])
+    jobs.append(job('shutdown_cancel two downloads', s, BD(tier)['CANCEL'], want, monitor_fs=True, max_execs=400000))
+    s = scn(copy.deepcopy(trs), cfg(max_request_concurrency=2, max_submission_concurrency=2), seed=seed, script='shutdown',
+            victims=[0], faults={'sites': ['s3:', 'stream:fatal', 'fs:write'], 'only_key': 0})
+    jobs.append(job('one of two downloads fails during shutdown', s, BD(tier)['FAULT'], want, monitor_fs=True, max_execs=400000))
     # destination base names at and around the file system's 255-character limit (the temporary
     # name must stay different from the destination and within the limit); same for the other front-ends
     for nl in (255, 254, 248, 247):
